@@ -102,8 +102,17 @@ class AASDataChecker(DataChecker):
         super().__init__(**kwargs)
         self.check_extensions = check_extensions
 
+    @staticmethod
+    def _metamodel_class(object_: object) -> type:
+        # the class of the metamodel which the object is an instance of (application-defined subclasses count as their base)
+        return next((c for c in type(object_).__mro__ if c in model.KEY_TYPES_CLASSES), type(object_))
+
     def _check_submodel_element(self, object_: model.SubmodelElement, expected_object: model.SubmodelElement):
-        if self.check_is_instance(object_, expected_object.__class__):
+        # both must be of the same metamodel class: an AnnotatedRelationshipElement is also an instance of RelationshipElement,
+        # but the two have different attributes
+        if self.check(self._metamodel_class(object_) is self._metamodel_class(expected_object),
+                      "{} must be of class {}".format(repr(object_), self._metamodel_class(expected_object).__name__),
+                      **{'class': object_.__class__.__name__}):
             if isinstance(object_, model.Property):
                 return self.check_property_equal(object_, expected_object)  # type: ignore
             if isinstance(object_, model.MultiLanguageProperty):
